@@ -293,23 +293,59 @@ fn scenario_reentrant(k: u64, events: &Events) {
 pub fn main(args: &[String]) {
     quiet_panics();
     let n: usize = args[1].parse().unwrap();
-    let mut rng = Rng::new(args[2].parse().unwrap());
+    let seed: u64 = args[2].parse().unwrap();
     let events: Events = Arc::new(Mutex::new(vec![]));
-    let mut scenarios = 0;
-    for k in 1..=3 {
-        scenario_parked_in_appender(k, &events);
-        scenario_reentrant(k, &events);
-        scenarios += 2;
+    // the scenarios run on a worker thread under a watchdog: a log or set_config call that never returns (a thread
+    // waiting for itself, a lost wake-up) is a result, not a reason for the whole replay to time out
+    let progress = Arc::new(Mutex::new((0usize, String::new(), std::time::Instant::now())));
+    let (ev2, pr2) = (events.clone(), progress.clone());
+    let worker = std::thread::spawn(move || {
+        let mut rng = Rng::new(seed);
+        let step = |name: &str| {
+            let mut p = pr2.lock().unwrap();
+            p.0 += 1;
+            p.1 = name.to_string();
+            p.2 = std::time::Instant::now();
+        };
+        for k in 1..=3 {
+            step(&format!("swap while a logging thread is parked in appender {}", k));
+            scenario_parked_in_appender(k, &ev2);
+            step(&format!("appender {} reconfigures from inside the fan-out", k));
+            scenario_reentrant(k, &ev2);
+        }
+        step("swap while a logging thread is parked after the snapshot load");
+        scenario_parked_after_load(&ev2);
+        step("swap while a logging thread is parked in Logger::enabled");
+        scenario_parked_in_enabled(&ev2);
+        for k in 0..n {
+            step(&format!("free-running scenario {}", k));
+            scenario_free(&mut rng, &ev2, k == 0);
+        }
+        step("done");
+    });
+    let mut hung: Option<String> = None;
+    loop {
+        if worker.is_finished() {
+            break;
+        }
+        {
+            let p = progress.lock().unwrap();
+            if p.2.elapsed() > std::time::Duration::from_secs(60) {
+                hung = Some(p.1.clone());
+                break;
+            }
+        }
+        std::thread::sleep(std::time::Duration::from_millis(20));
     }
-    scenario_parked_after_load(&events);
-    scenario_parked_in_enabled(&events);
-    scenarios += 2;
-    for k in 0..n {
-        scenario_free(&mut rng, &events, k == 0);
-        scenarios += 1;
-    }
-    let ev = events.lock().unwrap();
+    let scenarios = progress.lock().unwrap().0.saturating_sub(1);
+    let ev = match events.try_lock() {
+        Ok(e) => e.clone(),
+        Err(_) => vec![],
+    };
     write_ndjson(&args[0], &ev);
-    println!("{}", json!({"scenarios": scenarios, "events": ev.len(),
+    println!("{}", json!({"scenarios": scenarios, "events": ev.len(), "hung_in": hung,
         "panics": ev.iter().filter(|e| e["e"] == "Panic").count()}));
+    if hung.is_some() {
+        std::process::exit(0); // the stuck threads cannot be joined
+    }
 }
